@@ -330,6 +330,115 @@ def judge(block, sch, wires):
     return out
 
 
+# ---------------------------------------------------------------------------------------------------------------
+# geometric clause: "the nets DRAWN for it (together with their pass-through and feedback markers) form one
+# connected figure that touches the pin that really drives the wire and every pin that really reads it, and no
+# pin of any other wire" - evaluated on the routed polylines (NetSymbol.x / .y) and the symbol rectangles.
+
+def _segs(net):
+    if net.x is None or net.y is None:
+        return []
+    return [((net.x[i], net.y[i]), (net.x[i + 1], net.y[i + 1])) for i in range(len(net.x) - 1)]
+
+
+def _on(p, seg):
+    (x0, y0), (x1, y1) = seg
+    px, py = p
+    if min(x0, x1) <= px <= max(x0, x1) and min(y0, y1) <= py <= max(y0, y1):
+        return (x1 - x0) * (py - y0) == (y1 - y0) * (px - x0)
+    return False
+
+
+def _touch(a, b):
+    if _on(a[0], b) or _on(a[1], b) or _on(b[0], a) or _on(b[1], a):
+        return True
+
+    def ccw(p, q, r):
+        return (q[0] - p[0]) * (r[1] - p[1]) - (q[1] - p[1]) * (r[0] - p[0])
+    d1, d2 = ccw(a[0], a[1], b[0]), ccw(a[0], a[1], b[1])
+    d3, d4 = ccw(b[0], b[1], a[0]), ccw(b[0], b[1], a[1])
+    return d1 * d2 < 0 and d3 * d4 < 0
+
+
+def judge_geometry(block, sch, wires):
+    """-> findings like judge(); only evaluated for wires that have a driver and a reader."""
+    out = []
+
+    def bad(clause, what, w):
+        out.append({'clause': clause, 'wire': w.name, 'wire_id': id(w), 'what': what})
+    real_ids = {id(c) for c in block.children.values()} | {id(p) for p in block.inPorts} | {id(p) for p in block.outPorts}
+    symof = {}
+    for s in sch.objs:
+        o = getattr(s, 'obj', None)
+        if o is not None and id(o) in real_ids:
+            symof.setdefault(id(o), s)
+    pins = []         # (wire id, point, label)
+    for wid, e in wires.items():
+        for owner, port in e['drivers']:
+            s = symof.get(id(owner))
+            if s is not None:
+                d = s.getPortSourcePos(port)
+                pins.append((wid, (s.x + d[0], s.y + d[1]), 'driver %s.%s' % (getattr(owner, 'name', '?'), port.name), 'drv'))
+        for owner, port in e['readers']:
+            s = symof.get(id(owner))
+            if s is not None:
+                d = s.getPortSinkPos(port)
+                pins.append((wid, (s.x + d[0], s.y + d[1]), 'reader %s.%s' % (getattr(owner, 'name', '?'), port.name), 'rd'))
+    nets_by_wire = {}
+    for net in sch.nets:
+        nets_by_wire.setdefault(id(net.wire), []).append(net)
+    for wid, e in wires.items():
+        w = e['wire']
+        if not e['readers'] or not e['drivers']:
+            continue
+        nets = nets_by_wire.get(wid, [])
+        segs = []
+        for n in nets:
+            if not n.routed or n.x is None:
+                bad('net_not_routed', 'a net %s -> %s of wire %s has no routed path' % (
+                    getattr(n.source, 'name', '?'), getattr(n.sink, 'name', '?'), w.name), w)
+            segs += _segs(n)
+        if not segs:
+            continue                     # reported by the topological clauses
+        boxes = []
+        for n in nets:
+            for s in (n.source, n.sink):
+                if getattr(s, 'obj', None) is None or id(getattr(s, 'obj', None)) not in real_ids:
+                    if not any(s is b for b in boxes):
+                        boxes.append(s)
+        uf = _UF()
+        for i in range(len(segs)):
+            uf.find(('s', i))
+            for j in range(i + 1, len(segs)):
+                if _touch(segs[i], segs[j]):
+                    uf.union(('s', i), ('s', j))
+            for k, b in enumerate(boxes):
+                bx, by, bw, bh = b.x, b.y, b.getWidth(), b.getHeight()
+                if any(bx <= p[0] <= bx + bw and by <= p[1] <= by + bh for p in segs[i]):
+                    uf.union(('s', i), ('b', k))
+        for k, b in enumerate(boxes):
+            start = getattr(b, 'fb_start', None)
+            if start is not None:
+                for k2, b2 in enumerate(boxes):
+                    if b2 is start:
+                        uf.union(('b', k), ('b', k2))
+        comps = {uf.find(('s', i)) for i in range(len(segs))}
+        if len(comps) > 1:
+            bad('drawn_figure_disconnected', 'the routed paths drawn for wire %s fall into %d pieces' % (w.name, len(comps)), w)
+        drv_hit = False
+        for pw, pt, lab, kind in pins:
+            hit = any(_on(pt, sg) for sg in segs)
+            if pw == wid and kind == 'drv':
+                drv_hit = drv_hit or hit
+            if pw == wid and kind == 'rd' and not hit:
+                bad('drawn_reader_pin_untouched', 'the paths of wire %s do not reach %s' % (w.name, lab), w)
+            if pw != wid and hit:
+                bad('drawn_foreign_pin', 'a path of wire %s runs onto %s of wire %s' % (w.name, lab, wires[pw]['wire'].name), w)
+        if not drv_hit:
+            bad('drawn_driver_pin_untouched', 'the paths of wire %s do not start at any of its driver pins' % w.name, w)
+    return out
+
+
 def drawing_signature(sch):
     """hashable summary of a drawing (used to count distinct outcomes)"""
     m = sch.symbol_matrix
